@@ -449,10 +449,17 @@ func verifSpecListIndexLike(typ termType) bool {
 // one of its argument terms is not idempotent.
 //@ loop parser.parseFunctionTerm #1
 //@   invariant tokcur(l, t)
+// look-ahead in an argument list never consumes: every mark is undone before the argument is dealt with, so an
+// argument is either re-read by parseTerm or is the one identifier standing before the separator
+//@   invariant lookahead-undone: $ftMarks == $ftRewinds
 //@   invariant inv(l) && l.data == old(l.data) && l.pe == old(l.pe) && l.p >= old(l.p) && !$sawNI && (t != tkEOF ==> l.p > old(l.p))
 //@   decreases l.pe - l.p, ite(t == tkEOF, 0, 1)
 //@ func parser.parseFunctionTerm [C06]
 //@   local $sawNI bool = false
+//@   local $ftMarks int = 0
+//@   local $ftRewinds int = 0
+//@   before parser.lexer.mark#* set $ftMarks = $ftMarks + 1
+//@   before parser.lexer.rewind#* set $ftRewinds = $ftRewinds + 1
 //@   let s = old(l.$ts)
 //@   let e1 = old(l.p)
 //@   let e2 = ufInt("lex.end", old(l.data), old(l.p))
